@@ -32,7 +32,7 @@ theorem handleG_slots (st : Drv.DState) (args : List String) :
   split
   · rename_i T seqs inp _
     unfold Drv.addResult
-    cases constructG T inp with
+    cases constructGN (Drv.nonullOf args) T inp with
     | ok P => exact ⟨[(P, seqs)], rfl⟩
     | error e => exact ⟨[], by simp⟩
   · exact ⟨[], by simp⟩
